@@ -146,6 +146,10 @@ class Arr:
         return len(self.v)
 
     @property
+    def ndim(self):
+        return 1
+
+    @property
     def shape(self):
         return (len(self.v),)
 
